@@ -165,7 +165,7 @@ def run_input(ctx, i):
     def twin():
         return aa.Imaging(data=aa.Array2D(values=case["d"].copy(), mask=case["mask"]), noise_map=aa.Array2D(values=case["noise"].copy(), mask=case["mask"]),
                           psf=aa.Kernel2D.no_mask(values=case["k"].copy(), pixel_scales=case["ps"]), use_normalized_psf=case["normalized"],
-                          over_sampling=aa.OverSamplingDataset(pixelization=aa.OverSamplingUniform(sub_size=case["sub"])))
+                          over_sampling=aa.OverSamplingDataset(pixelization=aa.OverSamplingUniform(sub_size=case["sub_arg"])))
 
     positive = bool(rng.random() < 0.25)
     subsets = QUICK_SUBSETS if ctx.tier == "quick" else [c for r in range(6) for c in itertools.combinations(SLOTS, r)]
@@ -287,7 +287,7 @@ def run_input(ctx, i):
         other[~case["m"]] = other[~case["m"]] * 1.5
         ds_other = aa.Imaging(data=aa.Array2D(values=case["d"].copy(), mask=case["mask"]), noise_map=aa.Array2D(values=other, mask=case["mask"]),
                               psf=aa.Kernel2D.no_mask(values=case["k"].copy(), pixel_scales=case["ps"]), use_normalized_psf=case["normalized"],
-                              over_sampling=aa.OverSamplingDataset(pixelization=aa.OverSamplingUniform(sub_size=case["sub"])))
+                              over_sampling=aa.OverSamplingDataset(pixelization=aa.OverSamplingUniform(sub_size=case["sub_arg"])))
         try:
             aa.Inversion(dataset=ds_other, linear_obj_list=objs, settings=st, preloads=aa.Preloads(w_tilde=twin().w_tilde))
             raised = "nothing"
